@@ -377,7 +377,7 @@ def quiet():
         yield buf
 
 
-def approx_equal(a, b, rel=1e-6, abs_=1e-9):
+def approx_equal(a, b, rel=1e-6, abs_=1e-12):
     if isinstance(a, float) and isinstance(b, float) and (math.isnan(a) or math.isnan(b)):
         return False
     return abs(a - b) <= abs_ + rel * max(abs(a), abs(b))
